@@ -23,6 +23,7 @@ import (
 	"fmt"
 	"go/ast"
 	goparser "go/parser"
+	"go/printer"
 	"go/token"
 	"path/filepath"
 	"sort"
@@ -30,45 +31,54 @@ import (
 	"strings"
 )
 
-type lkState struct{ held, deferred int }
+// holds of ONE lock: write / read holds and the deferred unlocks of the current function
+type lkState struct{ w, r, dw, dr int }
+
+func (s lkState) held() int { return s.w + s.r }
 
 type lkSummary struct {
-	acquires, blocks bool
-	callees          []string
+	blocks  bool            // waits or evaluates (transitively)
+	touches map[string]bool // lock keys it operates on (transitively)
+	callees []string
 }
 
 type lkAnalysis struct {
 	fset    *token.FileSet
-	methods map[string]*ast.FuncDecl
+	methods map[string]*ast.FuncDecl // every function / method of the file by name (unique names only)
 	sum     map[string]*lkSummary
+	key     string // the lock followed in this pass: source text of the expression before .Lock(), e.g. "ed.lock"
 	// per method under analysis
 	recv    string
 	refuted []string
 	unknown []string
+	stack   []string // inlined callees (recursion guard)
+	rets    []lkSet  // return states of the callee being inlined
 }
 
 func (a *lkAnalysis) line(p token.Pos) int { return a.fset.Position(p).Line }
 
-// lockOp: "+" for recv.lock.Lock/RLock, "-" for Unlock/RUnlock, "" otherwise
-func lockOp(call *ast.CallExpr, recv string) string {
+// lockExprText: for a call X.Lock() / RLock / Unlock / RUnlock without arguments the source text of X
+func lockExprText(call *ast.CallExpr) (string, string) {
 	sel, ok := call.Fun.(*ast.SelectorExpr)
-	if !ok {
-		return ""
-	}
-	inner, ok := sel.X.(*ast.SelectorExpr)
-	if !ok || inner.Sel.Name != "lock" {
-		return ""
-	}
-	if id, ok := inner.X.(*ast.Ident); !ok || id.Name != recv {
-		return ""
+	if !ok || len(call.Args) != 0 {
+		return "", ""
 	}
 	switch sel.Sel.Name {
-	case "Lock", "RLock":
-		return "+"
-	case "Unlock", "RUnlock":
-		return "-"
+	case "Lock", "RLock", "Unlock", "RUnlock":
+		var sb strings.Builder
+		printer.Fprint(&sb, token.NewFileSet(), sel.X)
+		return sb.String(), sel.Sel.Name
 	}
-	return ""
+	return "", ""
+}
+
+// lockOp: "W+" "R+" "W-" "R-" for an operation on the lock followed in this pass, "" otherwise
+func (a *lkAnalysis) lockOp(call *ast.CallExpr) string {
+	x, op := lockExprText(call)
+	if x != a.key {
+		return ""
+	}
+	return map[string]string{"Lock": "W+", "RLock": "R+", "Unlock": "W-", "RUnlock": "R-"}[op]
 }
 
 func isBlocking(call *ast.CallExpr) string {
@@ -83,13 +93,17 @@ func isBlocking(call *ast.CallExpr) string {
 	return ""
 }
 
+// ownMethod: the called function if it is declared in the analysed file (methods by name)
 func (a *lkAnalysis) ownMethod(call *ast.CallExpr, recv string) string {
-	if sel, ok := call.Fun.(*ast.SelectorExpr); ok {
-		if id, ok := sel.X.(*ast.Ident); ok && id.Name == recv {
-			if _, ok := a.methods[sel.Sel.Name]; ok {
-				return sel.Sel.Name
-			}
-		}
+	name := ""
+	switch f := call.Fun.(type) {
+	case *ast.SelectorExpr:
+		name = f.Sel.Name
+	case *ast.Ident:
+		name = f.Name
+	}
+	if fd, ok := a.methods[name]; ok && fd != nil {
+		return name
 	}
 	return ""
 }
@@ -115,7 +129,7 @@ func (a *lkAnalysis) calls(n ast.Node) []*ast.CallExpr {
 		switch x := x.(type) {
 		case *ast.FuncLit:
 			ast.Inspect(x.Body, func(y ast.Node) bool {
-				if c, ok := y.(*ast.CallExpr); ok && (lockOp(c, a.recv) != "" || isBlocking(c) != "") {
+				if c, ok := y.(*ast.CallExpr); ok && (a.lockOp(c) != "" || isBlocking(c) != "") {
 					a.unknown = append(a.unknown, fmt.Sprintf("lock operation or wait point inside a function literal (line %d)", a.line(c.Pos())))
 				}
 				return true
@@ -143,11 +157,23 @@ func union(a, b lkSet) lkSet {
 }
 
 func (a *lkAnalysis) exit(in lkSet, pos token.Pos, how string) {
+	if len(a.rets) > 0 { // inside an inlined callee: hand the states back to the caller
+		out := a.rets[len(a.rets)-1]
+		for s := range in {
+			n := lkState{s.w - s.dw, s.r - s.dr, 0, 0}
+			if n.w < 0 || n.r < 0 {
+				a.refuted = append(a.refuted, fmt.Sprintf("%s: a deferred unlock of %s releases a lock that is not held (line %d)", how, a.key, a.line(pos)))
+				continue
+			}
+			out[n] = true
+		}
+		return
+	}
 	for s := range in {
-		if s.held-s.deferred > 0 {
-			a.refuted = append(a.refuted, fmt.Sprintf("%s with the lock held (line %d)", how, a.line(pos)))
-		} else if s.held-s.deferred < 0 {
-			a.refuted = append(a.refuted, fmt.Sprintf("%s: a deferred unlock releases a lock that is not held (line %d)", how, a.line(pos)))
+		if s.w-s.dw > 0 || s.r-s.dr > 0 {
+			a.refuted = append(a.refuted, fmt.Sprintf("%s with %s held (line %d)", how, a.key, a.line(pos)))
+		} else if s.w-s.dw < 0 || s.r-s.dr < 0 {
+			a.refuted = append(a.refuted, fmt.Sprintf("%s: a deferred unlock of %s releases a lock that is not held (line %d)", how, a.key, a.line(pos)))
 		}
 	}
 }
@@ -156,39 +182,62 @@ func (a *lkAnalysis) exit(in lkSet, pos token.Pos, how string) {
 func (a *lkAnalysis) apply(in lkSet, n ast.Node) lkSet {
 	cur := in
 	for _, c := range a.calls(n) {
-		next := lkSet{}
-		op := lockOp(c, a.recv)
+		op := a.lockOp(c)
 		blocking := isBlocking(c)
 		callee := a.ownMethod(c, a.recv)
 		if isExitCall(c) {
+			saved := a.rets
+			a.rets = nil // Goexit / panic leave the goroutine: every frame's deferred calls run; judged for this frame
 			a.exit(cur, c.Pos(), "leaves")
+			a.rets = saved
 			return lkSet{}
 		}
+		if op == "" && callee != "" && a.sum[callee].touches[a.key] {
+			// a function of this file that operates on the lock: followed with the caller's holds
+			cur = a.inline(callee, cur, c.Pos())
+			continue
+		}
+		next := lkSet{}
 		for s := range cur {
-			switch {
-			case op == "+":
-				if s.held > 0 {
-					a.refuted = append(a.refuted, fmt.Sprintf("takes the lock while holding it (line %d)", a.line(c.Pos())))
+			switch op {
+			case "W+", "R+":
+				if s.held() > 0 {
+					a.refuted = append(a.refuted, fmt.Sprintf("takes %s while holding it (line %d)", a.key, a.line(c.Pos())))
 				}
-				next[lkState{s.held + 1, s.deferred}] = true
-			case op == "-":
-				if s.held == 0 {
-					a.refuted = append(a.refuted, fmt.Sprintf("unlocks a lock it does not hold (line %d)", a.line(c.Pos())))
+				if op == "W+" {
+					next[lkState{s.w + 1, s.r, s.dw, s.dr}] = true
+				} else {
+					next[lkState{s.w, s.r + 1, s.dw, s.dr}] = true
+				}
+			case "W-":
+				if s.w == 0 {
+					what := "unlocks " + a.key + " which it does not hold"
+					if s.r > 0 {
+						what = "Unlock of " + a.key + " while it is read-locked (RLock needs RUnlock)"
+					}
+					a.refuted = append(a.refuted, fmt.Sprintf("%s (line %d)", what, a.line(c.Pos())))
 					next[s] = true
 				} else {
-					next[lkState{s.held - 1, s.deferred}] = true
+					next[lkState{s.w - 1, s.r, s.dw, s.dr}] = true
+				}
+			case "R-":
+				if s.r == 0 {
+					what := "read-unlocks " + a.key + " which it does not hold"
+					if s.w > 0 {
+						what = "RUnlock of " + a.key + " while it is write-locked (Lock needs Unlock)"
+					}
+					a.refuted = append(a.refuted, fmt.Sprintf("%s (line %d)", what, a.line(c.Pos())))
+					next[s] = true
+				} else {
+					next[lkState{s.w, s.r - 1, s.dw, s.dr}] = true
 				}
 			default:
-				if s.held > 0 {
-					if blocking != "" {
-						a.refuted = append(a.refuted, fmt.Sprintf("%s with the lock held (line %d)", blocking, a.line(c.Pos())))
+				if s.held() > 0 {
+					if blocking != "" && !a.condWaitOnKey(c) {
+						a.refuted = append(a.refuted, fmt.Sprintf("%s with %s held (line %d)", blocking, a.key, a.line(c.Pos())))
 					}
-					if callee != "" {
-						if a.sum[callee].acquires {
-							a.refuted = append(a.refuted, fmt.Sprintf("calls %s, which takes the lock, while holding it (line %d)", callee, a.line(c.Pos())))
-						} else if a.sum[callee].blocks {
-							a.refuted = append(a.refuted, fmt.Sprintf("calls %s, which waits or evaluates, with the lock held (line %d)", callee, a.line(c.Pos())))
-						}
+					if callee != "" && a.sum[callee].blocks {
+						a.refuted = append(a.refuted, fmt.Sprintf("calls %s, which waits or evaluates, with %s held (line %d)", callee, a.key, a.line(c.Pos())))
 					}
 				}
 				next[s] = true
@@ -197,6 +246,66 @@ func (a *lkAnalysis) apply(in lkSet, n ast.Node) lkSet {
 		cur = next
 	}
 	return cur
+}
+
+// condWaitOnKey: X.Wait() where the followed lock is X.L — sync.Cond.Wait must be called with L held and releases it
+func (a *lkAnalysis) condWaitOnKey(c *ast.CallExpr) bool {
+	if sel, ok := c.Fun.(*ast.SelectorExpr); ok && sel.Sel.Name == "Wait" {
+		var sb strings.Builder
+		printer.Fprint(&sb, token.NewFileSet(), sel.X)
+		return sb.String()+".L" == a.key
+	}
+	return false
+}
+
+// inline follows a function of the file from the caller's states (its own deferred unlocks run at its exits)
+func (a *lkAnalysis) inline(callee string, in lkSet, pos token.Pos) lkSet {
+	for _, f := range a.stack {
+		if f == callee {
+			// a recursive call from zero holds repeats what is being established from zero holds
+			for st := range in {
+				if st.held() > 0 {
+					a.unknown = append(a.unknown, fmt.Sprintf("recursive call of %s with %s held (line %d)", callee, a.key, a.line(pos)))
+					break
+				}
+			}
+			return in
+		}
+	}
+	if len(a.stack) > 6 {
+		a.unknown = append(a.unknown, fmt.Sprintf("call depth (line %d)", a.line(pos)))
+		return in
+	}
+	entry := lkSet{}
+	frames := map[lkState]lkState{} // callee state -> the caller's deferred counts are restored afterwards
+	for s := range in {
+		e := lkState{s.w, s.r, 0, 0}
+		entry[e] = true
+		frames[e] = s
+	}
+	a.stack = append(a.stack, callee)
+	a.rets = append(a.rets, lkSet{})
+	savedRecv := a.recv
+	fd := a.methods[callee]
+	if fd.Recv != nil && len(fd.Recv.List) == 1 && len(fd.Recv.List[0].Names) == 1 {
+		a.recv = fd.Recv.List[0].Names[0].Name
+	}
+	out, _ := a.block(fd.Body.List, entry)
+	a.exit(out, fd.Body.Rbrace, "ends")
+	rets := a.rets[len(a.rets)-1]
+	a.rets = a.rets[:len(a.rets)-1]
+	a.stack = a.stack[:len(a.stack)-1]
+	a.recv = savedRecv
+	// the caller's deferred counts: the same for all its states in practice; take them from any
+	var dw, dr int
+	for _, s := range frames {
+		dw, dr = s.dw, s.dr
+	}
+	res := lkSet{}
+	for s := range rets {
+		res[lkState{s.w, s.r, dw, dr}] = true
+	}
+	return res
 }
 
 // block: states after the block; esc: states that left it by break / continue
@@ -219,13 +328,17 @@ func (a *lkAnalysis) stmt(st ast.Stmt, in lkSet) (out, esc lkSet) {
 	case nil:
 		return in, esc
 	case *ast.DeferStmt:
-		if op := lockOp(st.Call, a.recv); op == "-" {
+		if op := a.lockOp(st.Call); op == "W-" || op == "R-" {
 			out = lkSet{}
 			for s := range in {
-				out[lkState{s.held, s.deferred + 1}] = true
+				if op == "W-" {
+					out[lkState{s.w, s.r, s.dw + 1, s.dr}] = true
+				} else {
+					out[lkState{s.w, s.r, s.dw, s.dr + 1}] = true
+				}
 			}
 			return out, esc
-		} else if op == "+" {
+		} else if op != "" {
 			a.unknown = append(a.unknown, fmt.Sprintf("deferred Lock (line %d)", a.line(st.Pos())))
 		}
 		a.calls(st.Call) // function literals are inspected for lock operations
@@ -337,46 +450,50 @@ func (a *lkAnalysis) stmt(st ast.Stmt, in lkSet) (out, esc lkSet) {
 
 // c16LockFacts writes the lock discipline facts (Lean definitions) for interpreter/debug.go.
 func c16LockFacts() (string, error) {
-	a := &lkAnalysis{fset: token.NewFileSet(), methods: map[string]*ast.FuncDecl{}, sum: map[string]*lkSummary{}}
-	file, err := goparser.ParseFile(a.fset, filepath.Join(repoDir(), "interpreter", "debug.go"), nil, 0)
+	fset := token.NewFileSet()
+	file, err := goparser.ParseFile(fset, filepath.Join(repoDir(), "interpreter", "debug.go"), nil, 0)
 	if err != nil {
 		return "", err
 	}
-	recvName := map[string]string{}
+	methods := map[string]*ast.FuncDecl{}
+	dup := map[string]bool{}
 	for _, d := range file.Decls {
-		fd, ok := d.(*ast.FuncDecl)
-		if !ok || fd.Recv == nil || len(fd.Recv.List) != 1 || fd.Body == nil {
-			continue
-		}
-		if st, ok := fd.Recv.List[0].Type.(*ast.StarExpr); ok {
-			if id, ok := st.X.(*ast.Ident); ok && id.Name == "ecalDebugger" && len(fd.Recv.List[0].Names) == 1 {
-				a.methods[fd.Name.Name] = fd
-				recvName[fd.Name.Name] = fd.Recv.List[0].Names[0].Name
+		if fd, ok := d.(*ast.FuncDecl); ok && fd.Body != nil {
+			if _, seen := methods[fd.Name.Name]; seen {
+				dup[fd.Name.Name] = true
 			}
+			methods[fd.Name.Name] = fd
 		}
 	}
-	if len(a.methods) == 0 {
-		return "", fmt.Errorf("no methods of *ecalDebugger found in interpreter/debug.go")
+	for n := range dup {
+		delete(methods, n) // two functions of one name: calls are not followed
 	}
-	names := make([]string, 0, len(a.methods))
-	for n := range a.methods {
+	if len(methods) == 0 {
+		return "", fmt.Errorf("no functions found in interpreter/debug.go")
+	}
+	names := make([]string, 0, len(methods))
+	for n := range methods {
 		names = append(names, n)
 	}
 	sort.Strings(names)
-	// summaries: direct, then transitive over calls of methods of the same receiver
+	// the locks of the file: every expression X with a call X.Lock()/RLock()/Unlock()/RUnlock()
+	keys := map[string]bool{}
+	sum := map[string]*lkSummary{}
+	base := &lkAnalysis{fset: fset, methods: methods, sum: sum}
 	for _, n := range names {
-		s := &lkSummary{}
-		a.sum[n] = s
-		ast.Inspect(a.methods[n].Body, func(x ast.Node) bool {
+		sm := &lkSummary{touches: map[string]bool{}}
+		sum[n] = sm
+		ast.Inspect(methods[n].Body, func(x ast.Node) bool {
 			if c, ok := x.(*ast.CallExpr); ok {
-				if lockOp(c, recvName[n]) == "+" {
-					s.acquires = true
+				if k, _ := lockExprText(c); k != "" {
+					keys[k] = true
+					sm.touches[k] = true
 				}
 				if isBlocking(c) != "" {
-					s.blocks = true
+					sm.blocks = true
 				}
-				if m := a.ownMethod(c, recvName[n]); m != "" {
-					s.callees = append(s.callees, m)
+				if m := base.ownMethod(c, ""); m != "" {
+					sm.callees = append(sm.callees, m)
 				}
 			}
 			return true
@@ -385,43 +502,113 @@ func c16LockFacts() (string, error) {
 	for changed := true; changed; {
 		changed = false
 		for _, n := range names {
-			for _, c := range a.sum[n].callees {
-				if a.sum[c].acquires && !a.sum[n].acquires {
-					a.sum[n].acquires, changed = true, true
+			for _, c := range sum[n].callees {
+				if sum[c].blocks && !sum[n].blocks {
+					sum[n].blocks, changed = true, true
 				}
-				if a.sum[c].blocks && !a.sum[n].blocks {
-					a.sum[n].blocks, changed = true, true
+				for k := range sum[c].touches {
+					if !sum[n].touches[k] {
+						sum[n].touches[k], changed = true, true
+					}
 				}
 			}
 		}
 	}
-	var sb strings.Builder
-	var verdicts, refuted, unknown []string
+	called := map[string]bool{}
 	for _, n := range names {
-		a.recv, a.refuted, a.unknown = recvName[n], nil, nil
-		out, _ := a.block(a.methods[n].Body.List, lkSet{lkState{}: true})
-		a.exit(out, a.methods[n].Body.Rbrace, "ends")
+		for _, c := range sum[n].callees {
+			if c != n {
+				called[c] = true
+			}
+		}
+	}
+	keyList := make([]string, 0, len(keys))
+	for k := range keys {
+		keyList = append(keyList, k)
+	}
+	sort.Strings(keyList)
+	var verdicts, refuted, unknown []string
+	// struct fields of a lock type without any lock operation in the file: nothing was followed
+	for _, d := range file.Decls {
+		gd, ok := d.(*ast.GenDecl)
+		if !ok {
+			continue
+		}
+		for _, sp := range gd.Specs {
+			ts, ok := sp.(*ast.TypeSpec)
+			if !ok {
+				continue
+			}
+			st, ok := ts.Type.(*ast.StructType)
+			if !ok {
+				continue
+			}
+			for _, f := range st.Fields.List {
+				var tb strings.Builder
+				printer.Fprint(&tb, fset, f.Type)
+				if !strings.Contains(tb.String(), "sync.") {
+					continue
+				}
+				for _, nm := range f.Names {
+					found := false
+					for k := range keys {
+						if strings.HasSuffix(k, "."+nm.Name) || strings.Contains(k, "."+nm.Name+".") {
+							found = true
+						}
+					}
+					if !found {
+						unknown = append(unknown, fmt.Sprintf("(%s, %s)", strconv.Quote(ts.Name.Name+"."+nm.Name),
+							strconv.Quote("field of type "+tb.String()+" but no Lock/Unlock on it was found in the file (renamed? aliased?)")))
+					}
+				}
+			}
+		}
+	}
+	for _, n := range names {
+		// judged from zero holds: exported functions and functions nobody in the file calls;
+		// the others are followed from their call sites with the caller's holds
+		root := ast.IsExported(n) || !called[n]
 		v := "established"
-		if len(a.refuted) > 0 {
+		var why, unk []string
+		if root {
+			for _, k := range keyList {
+				if !sum[n].touches[k] {
+					continue
+				}
+				a := &lkAnalysis{fset: fset, methods: methods, sum: sum, key: k}
+				if fd := methods[n]; fd.Recv != nil && len(fd.Recv.List) == 1 && len(fd.Recv.List[0].Names) == 1 {
+					a.recv = fd.Recv.List[0].Names[0].Name
+				}
+				a.stack = []string{n}
+				out, _ := a.block(methods[n].Body.List, lkSet{lkState{}: true})
+				a.exit(out, methods[n].Body.Rbrace, "ends")
+				why = append(why, a.refuted...)
+				unk = append(unk, a.unknown...)
+			}
+		} else {
+			v = "followed-from-callers"
+		}
+		if len(why) > 0 {
 			v = "refuted"
-		} else if len(a.unknown) > 0 {
+		} else if len(unk) > 0 {
 			v = "unknown"
 		}
 		verdicts = append(verdicts, fmt.Sprintf("(%s, %s)", strconv.Quote(n), strconv.Quote(v)))
 		seen := map[string]bool{}
-		for _, r := range a.refuted {
+		for _, r := range why {
 			if !seen[r] {
 				seen[r] = true
 				refuted = append(refuted, fmt.Sprintf("(%s, %s)", strconv.Quote(n), strconv.Quote(r)))
 			}
 		}
-		for _, r := range a.unknown {
+		for _, r := range unk {
 			if !seen[r] {
 				seen[r] = true
 				unknown = append(unknown, fmt.Sprintf("(%s, %s)", strconv.Quote(n), strconv.Quote(r)))
 			}
 		}
 	}
+	var sb strings.Builder
 	list := func(name, doc string, xs []string) {
 		fmt.Fprintf(&sb, "/-- %s -/\ndef %s : List (String × String) := [", doc, name)
 		for i, x := range xs {
@@ -432,8 +619,77 @@ func c16LockFacts() (string, error) {
 		}
 		sb.WriteString("]\n")
 	}
-	list("lockDiscipline", "every method of *ecalDebugger: on all paths the lock it takes is released, and it is not held at a wait point, an evaluation or a call that takes the lock again (established / refuted / unknown)", verdicts)
-	list("lockRefuted", "(method, why) for every refuted method", refuted)
-	list("lockUnknown", "(method, what the analysis does not follow) — not an obligation: amplifies the search", unknown)
+	fmt.Fprintf(&sb, "/-- the locks followed in interpreter/debug.go -/\ndef lockKeys : List String := [")
+	for i, k := range keyList {
+		if i > 0 {
+			sb.WriteString(", ")
+		}
+		sb.WriteString(strconv.Quote(k))
+	}
+	sb.WriteString("]\n")
+	list("lockDiscipline", "every function of interpreter/debug.go, for every lock it operates on (Lock pairs with Unlock, RLock with RUnlock): on all paths what it takes is released, nothing is held at a wait point, an evaluation or a second acquisition; calls into functions of the file are followed with the caller's holds (established / refuted / unknown / followed-from-callers)", verdicts)
+	list("lockRefuted", "(function, why) for every refuted function", refuted)
+	list("lockUnknown", "(function or field, what the analysis does not follow) — not an obligation: amplifies the search", unknown)
+	// words HandleInput compares the first word of the line with
+	lits, err := c16DispatchLiterals()
+	if err != nil {
+		return "", err
+	}
+	fmt.Fprintf(&sb, "/-- string literals ecalDebugger.HandleInput compares (==, switch) with: command words it dispatches on besides the keys of DebugCommandsMap -/\ndef dispatchLiterals : List String := [")
+	for i, l := range lits {
+		if i > 0 {
+			sb.WriteString(", ")
+		}
+		sb.WriteString(strconv.Quote(l))
+	}
+	sb.WriteString("]\n")
 	return sb.String(), nil
+}
+
+// c16DispatchLiterals: string literals compared with == / != or used as switch cases inside
+// ecalDebugger.HandleInput (interpreter/debug.go)
+func c16DispatchLiterals() ([]string, error) {
+	fset := token.NewFileSet()
+	file, err := goparser.ParseFile(fset, filepath.Join(repoDir(), "interpreter", "debug.go"), nil, 0)
+	if err != nil {
+		return nil, err
+	}
+	set := map[string]bool{}
+	lit := func(e ast.Expr) {
+		if b, ok := e.(*ast.BasicLit); ok && b.Kind == token.STRING {
+			if v, err := strconv.Unquote(b.Value); err == nil {
+				set[v] = true
+			}
+		}
+	}
+	for _, d := range file.Decls {
+		fd, ok := d.(*ast.FuncDecl)
+		if !ok || fd.Name.Name != "HandleInput" || fd.Body == nil {
+			continue
+		}
+		ast.Inspect(fd.Body, func(n ast.Node) bool {
+			switch x := n.(type) {
+			case *ast.BinaryExpr:
+				if x.Op == token.EQL || x.Op == token.NEQ {
+					lit(x.X)
+					lit(x.Y)
+				}
+			case *ast.CaseClause:
+				for _, e := range x.List {
+					lit(e)
+				}
+			case *ast.CallExpr:
+				if sel, ok := x.Fun.(*ast.SelectorExpr); ok && (sel.Sel.Name == "HasPrefix" || sel.Sel.Name == "EqualFold") && len(x.Args) == 2 {
+					lit(x.Args[1])
+				}
+			}
+			return true
+		})
+	}
+	out := make([]string, 0, len(set))
+	for l := range set {
+		out = append(out, l)
+	}
+	sort.Strings(out)
+	return out, nil
 }
